@@ -150,7 +150,14 @@ def make_adapter(desc, targets, reqs):
 def abstract_job(args):
     tier, seed, name, desc, targets, reqs = args
     import random
-    ad = make_adapter(desc, targets, reqs)
+    try:
+        ad = make_adapter(desc, targets, reqs)
+    except common.GraphMismatch as e:
+        return {'name': name, 'targets': targets, 'states': 0, 'transitions': 0, 'selfchecked': 0, 'capped': False,
+                'violations': {'C02/task-graph-lacks-a-declared-algorithm': {
+                    'what': f'[{name}] {e}', 'count': 1,
+                    'replay': {'tier': 'abstract', 'engine': name, 'desc': desc, 'targets': targets, 'reqs': reqs,
+                               'history': []}}}}
     ex = explore.Explorer(ad, max_states=300000)
     res = ex.run()
     bad = ex.selfcheck(res, random.Random(seed), 30 if tier == 'quick' else 200)
